@@ -46,7 +46,12 @@ def main():
         if kind in ("ledgerseq", "ledgerconc"):
             exe = vlib.go_build("vh-ledger")
             trace = os.path.join(work, "trace.ndjson")
-            if kind == "ledgerseq":
+            cs = rp.get("case") or {}
+            if kind == "ledgerseq" and cs.get("kind") == "featsweep":
+                # the history is a function of the case seed; it runs under all 48 feature combinations
+                rc, out = vlib.run([exe, "featsweep", "-case-seed", str(cs.get("seed")), "-len", str(len(cs.get("ops") or [])),
+                                    "-scale", str(cs.get("scale", "1")), "-out", trace], timeout=1800)
+            elif kind == "ledgerseq":
                 rc, out = vlib.run([exe, "replay", "-case", path, "-out", trace], timeout=900)
             else:
                 rc, out = vlib.run([exe, "conc", "-replay", path, "-out", trace], timeout=900)
